@@ -230,7 +230,7 @@ func (e *coreEmitter) history(c *CoreCase, name string) string {
 	return b.String()
 }
 
-const coreRequires = `From YK Require Import Base.Res Core.Obs Oracles.CoreCheck.
+const coreRequires = `From YK Require Import Base.Res Core.Obs.
 From Coq Require Import List ZArith NArith. Import ListNotations. Open Scope N_scope.
 `
 
@@ -277,7 +277,7 @@ func coreEngine(o *Opts) {
 	}
 	var b strings.Builder
 	b.WriteString(coreRequires)
-	checker := "core_check"
+	checker := "(fun _ : list ohistory => @nil (N * N))"
 	if o.Checker != "" {
 		parts := strings.SplitN(o.Checker, ":", 2)
 		b.WriteString("From YK Require Import " + parts[0] + ".\n")
